@@ -453,16 +453,7 @@ func c03Hashes(r *Report) {
 				r.OK(key+"|tag", d, w.Pos(call.Pos()), fmt.Sprintf("tag %q", tag))
 			}
 			if fd.Name.Name == "HashChallenge" {
-				want := []string{`[]byte(ContextString)`, `[]byte{0}`, `[]byte("challenge")`, `[]byte{0}`, `rAddress`, `[]byte{rawGroupPubKey[0] + 25}`, `paddedPx`, `Hash(data)`}
-				var got []string
-				for _, a := range call.Args {
-					got = append(got, exprString(w, a))
-				}
-				if strings.Join(got, "|") == strings.Join(want, "|") {
-					r.OK(key+"|layout", "HashChallenge layout [ctx,0,'challenge',0,address(R),parity+25,Px,keccak(msg)]", w.Pos(call.Pos()), strings.Join(got, ", "))
-				} else {
-					r.Bad(key+"|layout", "HashChallenge layout [ctx,0,'challenge',0,address(R),parity+25,Px,keccak(msg)]", w.Pos(call.Pos()), "found "+strings.Join(got, ", "))
-				}
+				c03ChallengeLayout(r, key)
 			}
 		}
 	}
@@ -475,4 +466,52 @@ func c03Hashes(r *Report) {
 	r.ArgHas("challenge-px", hc, "tss.PaddingBytes", 0, 1, "call:Int.Bytes", "call:PublicKey.X", "param:rawGroupPubKey")
 	r.ArgHas("challenge-px-32", hc, "tss.PaddingBytes", 1, 1, "const:32")
 	r.Gate("challenge-needs-valid-points", hc, RetOK(), []Cond{nilErrOf("Point.Address"), nilErrOf("Point.publicKey"), nilErrOf("tss.NewScalar")}, GateOpts{FailIsError: true})
+}
+
+// c03ChallengeLayout: the eight hashed elements of HashChallenge, as resolved values (not as source text): context
+// string, 0, "challenge", 0, address(R), parity byte of the group key + 25, padded X of the group key, Hash(message).
+func c03ChallengeLayout(r *Report, key string) {
+	w := r.W
+	desc := "HashChallenge layout [ctx,0,'challenge',0,address(R),parity+25,Px,keccak(msg)]"
+	fn := w.Fn("pkg/tss.HashChallenge")
+	if fn == nil {
+		r.Unres(key+"|layout", desc, "function not found")
+		return
+	}
+	var outer *Term
+	for _, c := range Calls(fn, "pkg/tss.Hash") {
+		t := renderCall(c)
+		// the outer call is the one whose argument list holds 8 elements
+		if len(t.Args) == 1 {
+			a := t.Args[0]
+			for (a.Op == "slice" || a.Op == "local") && len(a.Args) >= 1 {
+				if a.Op == "local" && len(a.Args) == 8 {
+					outer = a
+					break
+				}
+				a = a.Args[0]
+			}
+		}
+	}
+	if outer == nil {
+		r.Bad(key+"|layout", desc, w.FnPos(fn), "no Hash call over eight elements")
+		return
+	}
+	want := [][]string{
+		{"^const:BAND-TSS-secp256k1-v0"},
+		{"const:0", "!param:data", "!binop:+"},
+		{"^const:challenge"},
+		{"const:0", "!param:data", "!binop:+"},
+		{"call:Point.Address", "param:rawGroupPubNonce", "!param:rawGroupPubKey"},
+		{"binop:+", "const:25", "index", "param:rawGroupPubKey", "const:0", "!param:rawGroupPubNonce"},
+		{"call:tss.PaddingBytes", "call:PublicKey.X", "param:rawGroupPubKey", "const:32", "!param:rawGroupPubNonce"},
+		{"^call:tss.Hash", "param:data"},
+	}
+	for i, pats := range want {
+		if !outer.Args[i].Has(pats...) {
+			r.Bad(key+"|layout", desc, w.FnPos(fn), fmt.Sprintf("element %d is %s, expected {%s}", i, clip(outer.Args[i].String(), 120), strings.Join(pats, ", ")))
+			return
+		}
+	}
+	r.OK(key+"|layout", desc, w.FnPos(fn), "eight elements in the documented order")
 }
